@@ -269,13 +269,14 @@ Arguments pcof : simpl never.
 Arguments lof : simpl never.
 
 (* pcs inside the critical section *)
-Definition holds (p : pc) : bool := match p with Call _ _ | Unlock _ _ _ | XUnlock _ => true | _ => false end.
+Definition holds (p : pc) : bool := match p with Call _ _ | Unlock _ _ _ | Win _ _ _ _ _ | XUnlock _ => true | _ => false end.
 Definition is_some {A} (x : option A) : bool := match x with Some _ => true | None => false end.
 (* where the in-flight pointer of a thread may be non-null *)
 Definition held_ok (p : pc) (h : option ptr) : bool :=
   match p with
   | SLock o => match new_arg o with Some _ => is_some h | None => negb (is_some h) end
   | Unlock o _ _ => match dst_slot o with Some _ => true | None => negb (is_some h) end
+  | Win o _ _ _ _ => match dst_slot o with Some _ => true | None => negb (is_some h) end
   | _ => negb (is_some h)
   end.
 
@@ -303,6 +304,7 @@ Definition hist (g : glob) : mstate := replay (throws g) st0 (log g).
 Definition lin_pc (g : glob) (p : pc) : Prop :=
   match p with
   | Unlock o a r => apply_op (throws g) o a (hist g) = (cur g, Some r)
+  | Win o a r _ _ => apply_op (throws g) o a (hist g) = (cur g, Some r)
   | XUnlock o => apply_op (throws g) (OP o) null_ptr (hist g) = (cur g, None)
   | Call o k =>
     m_o (hist g) = omap g /\ m_t (hist g) = tmap g /\
@@ -348,6 +350,10 @@ Arguments fault_evs : simpl never.
 Arguments getslot : simpl never.
 Arguments setslot : simpl never.
 Arguments replay : simpl never.
+Arguments after_body : simpl never.
+Arguments sop_wins : simpl never.
+Arguments win_ev : simpl never.
+Arguments inst_of : simpl never.
 Arguments legal : simpl never.
 
 Ltac step_cases Hs :=
@@ -356,7 +362,9 @@ Ltac step_cases Hs :=
          | context [match ?x with _ => _ end] => destruct x eqn:?; cbn [at_ prog slots held] in Hs
          | context [if ?x then _ else _] => destruct x eqn:?; cbn [at_ prog slots held] in Hs
          end;
-  try discriminate; inversion Hs; subst; clear Hs.
+  try discriminate; inversion Hs; subst; clear Hs;
+  unfold after_body;
+  try match goal with |- context [match ?td with [] => Unlock _ _ _ | _ :: _ => _ end] => destruct td end.
 
 Lemma Inv_init th progs : Inv (gl (init th progs)) (thr (init th progs)).
 Proof.
@@ -419,9 +427,11 @@ Proof.
        cbn [at_ held held_ok]; pose proof (HS t) as HSt; rewrite Hp, Hlf in HSt; cbn [held held_ok] in HSt.
   all: try match goal with |- context [dst_slot ?x] => destruct (dst_slot x) eqn:D; [reflexivity|] end.
   all: try exact HSt.
-  - match goal with H : sop_rc _ _ _ _ _ = _ |- _ => rewrite (sop_rc_keep _ _ _ _ _ _ _ _ H D) end. reflexivity.
-  - exfalso. eapply not_rem_dst; eauto.
-  - match goal with H : dst_slot _ = None |- _ => rewrite H in HSt end. exact HSt.
+  all: first
+    [ match goal with H : sop_rc _ _ _ _ _ = _ |- _ => rewrite (sop_rc_keep _ _ _ _ _ _ _ _ H D) end; reflexivity
+    | exfalso; eapply not_rem_dst; eauto; fail
+    | match goal with H : dst_slot _ = None |- _ => rewrite H in HSt end; exact HSt
+    | rewrite D in HSt; exact HSt ].
 Qed.
 
 (* ---------- reference counts: local accounting of one step ---------- *)
@@ -559,31 +569,33 @@ Proof.
   all: cbn [andb negb orb].
   all: (split; [try reflexivity | eapply rc_frame; [exact Hl | exact HR | ]; intros id; unfold cnt_loc; cbn [slots held];
         try (specialize (Hd id)); try lia]).
-  - (* make_shared *)
-    rewrite rc_of_app. destruct hd; [discriminate|]. cbn [cnt_opt pid fst].
-    rewrite (Nat.eqb_sym (S (length (heap g))) id). destruct (Nat.eqb_spec id (S (length (heap g)))) as [->|]; [rewrite rc_of_fresh|]; lia.
-  - (* Drop *) pose proof (cnt_setslot id s None sl). cbn [cnt_opt] in *. lia.
-  - (* ReadObj *) match goal with H : getslot _ sl = Some _ |- _ => rewrite (alive_pos _ _ (Hsl _ _ H)) end. reflexivity.
-  - (* simple method, no fault *)
-    unfold harg in *. cbn [held] in *.
-    match goal with H1 : apply_sop _ _ _ _ = _, H2 : sop_rc _ _ _ _ _ = _ |- _ =>
-      destruct (sop_local _ _ _ _ _ _ _ _ _ _ _ _ HSt H1 H2) as [-> _] end; [|reflexivity].
-    intros id. specialize (Hle id). lia.
-  - (* simple method, counts *)
-    unfold harg in *. cbn [held] in *.
-    match goal with H1 : apply_sop _ _ _ _ = _, H2 : sop_rc _ _ _ _ _ = _ |- _ =>
-      destruct (sop_local _ _ _ _ _ _ _ _ _ _ _ _ HSt H1 H2) as [_ E] end.
-    + intros id'. specialize (Hle id'). lia.
-    + specialize (E id). lia.
-  - (* removal by predicate *)
-    match goal with H : lookup _ (omap g) = Some _ |- _ => pose proof (cnt_del id _ _ _ H) as Hc end.
-    rewrite cnt_opt_some in Hc. lia.
-  - (* find by predicate *)
-    destruct hd; [discriminate|]. rewrite cnt_opt_some. cbn [cnt_opt]. lia.
-  - (* the iterator is valid *)
-    exfalso. destruct (call_valid _ _ _ _ _ HI Hp) as [pre [q [suf [_ [E _]]]]]. congruence.
-  - (* the result goes into the slot *)
-    match goal with |- context [setslot ?b hd sl] => pose proof (cnt_setslot id b hd sl) end. cbn [cnt_opt] in *. lia.
+  all: first
+    [ (* make_shared *)
+      solve [ rewrite rc_of_app; destruct hd; [discriminate|]; cbn [cnt_opt pid fst];
+              rewrite (Nat.eqb_sym (S (length (heap g))) id);
+              destruct (Nat.eqb_spec id (S (length (heap g)))) as [->|]; [rewrite rc_of_fresh|]; lia ]
+    | (* Drop / the result goes into the slot *)
+      solve [ match goal with |- context [setslot ?b ?x ?y] => pose proof (cnt_setslot id b x y) end; cbn [cnt_opt] in *; lia ]
+    | (* ReadObj *)
+      solve [ match goal with H : getslot _ _ = Some _ |- _ => rewrite (alive_pos _ _ (Hsl _ _ H)) end; reflexivity ]
+    | (* simple method, no fault *)
+      solve [ unfold harg in *; cbn [held] in *;
+              match goal with H1 : apply_sop _ _ _ _ = _, H2 : sop_rc _ _ _ _ _ = _ |- _ =>
+                destruct (sop_local _ _ _ _ _ _ _ _ _ _ _ _ HSt H1 H2) as [-> _] end; [|reflexivity];
+              intros id; specialize (Hle id); lia ]
+    | (* simple method, counts *)
+      solve [ unfold harg in *; cbn [held] in *;
+              match goal with H1 : apply_sop _ _ _ _ = _, H2 : sop_rc _ _ _ _ _ = _ |- _ =>
+                destruct (sop_local _ _ _ _ _ _ _ _ _ _ _ _ HSt H1 H2) as [_ E] end;
+              [intros id'; specialize (Hle id'); lia | specialize (E id); lia] ]
+    | (* removal by predicate *)
+      solve [ match goal with H : lookup _ (omap _) = Some _ |- _ => pose proof (cnt_del id _ _ _ H) as Hc end;
+              rewrite cnt_opt_some in Hc; lia ]
+    | (* find by predicate *)
+      solve [ destruct hd; [discriminate|]; rewrite cnt_opt_some; cbn [cnt_opt]; lia ]
+    | (* the iterator is valid *)
+      solve [ exfalso; destruct (call_valid _ _ _ _ _ HI Hp) as [pre [q [suf [_ [E _]]]]]; congruence ]
+    ].
 Qed.
 
 (* ---------- the ghost log is a sequential history of the map ---------- *)
@@ -652,7 +664,7 @@ Proof.
   step_cases Hs; cbn [holds] in HOt; try (specialize (HOt eq_refl));
     (split; [|split; [intros u; apply Hsplit; clear Hsplit Hoth|]]);
     cbn [mtx at_ lin_pc throws log]; try exact I; try exact HLg; try discriminate.
-  all: cbn [lin_pc] in HLt; unfold cur, hist, harg in *; cbn [omap tmap calls throws log mtx held] in *.
+  all: unfold after_body; cbn [lin_pc at_]; cbn [lin_pc] in HLt; unfold cur, hist, harg in *; cbn [omap tmap calls throws log mtx held] in *.
   all: try (intros Hm; first [exact (HFr Hm) | congruence]).
   all: try (pose proof (HFr eq_refl) as Hc).
   all: try (rewrite apply_op_OP).
@@ -661,44 +673,45 @@ Proof.
             assert (next_key k (omap g) = first_key suf) as Hnk by (rewrite Eo; apply next_key_split; rewrite <- Eo; exact Hso);
             rewrite Ho, Ht, <- EQ, pscan_cons;
             try match goal with H : lookup _ (omap _) = Some ?p0 |- _ => assert (p0 = q) by congruence; subst p0 end).
-  - (* simple method *)
-    rewrite <- Hc. unfold apply_op. cbn [m_o m_t m_calls].
-    match goal with H : apply_sop _ _ _ _ = _ |- _ => rewrite H end. reflexivity.
-  - (* begin(): iterator at the first node *)
-    rewrite <- Hc. cbn [m_o m_t m_calls].
-    match goal with H : first_key _ = Some _ |- _ => destruct (first_key_some _ _ H) as [q [suf E]] end.
-    split; [reflexivity|split; [reflexivity|]]. exists [], q, suf. split; [exact E|]. rewrite E at 3. reflexivity.
-  - (* empty map *)
-    rewrite <- Hc. cbn [m_o m_t m_calls].
-    match goal with H : first_key _ = None |- _ => rewrite (first_key_none _ H) end. apply pscan_nil.
-  - (* the predicate throws *)
-    match goal with H : memZ _ _ = true |- _ => rewrite H end. reflexivity.
-  - (* removal of the first match *)
-    match goal with H : memZ _ _ = false |- _ => rewrite H end.
-    match goal with H : ptest _ _ _ _ = true |- _ => rewrite H end.
-    match goal with H : is_rem _ = true |- _ => destruct (is_rem_true _ H) as [kk ->] end. reflexivity.
-  - (* first match found *)
-    match goal with H : memZ _ _ = false |- _ => rewrite H end.
-    match goal with H : ptest _ _ _ _ = true |- _ => rewrite H end.
-    match goal with H : is_rem _ = false |- _ => rewrite (pfound_find _ _ _ _ _ H) end. reflexivity.
-  - (* no match: ++it *)
-    match goal with H : memZ _ _ = false |- _ => rewrite H end.
-    match goal with H : ptest _ _ _ _ = false |- _ => rewrite H end.
-    match goal with H : next_key _ _ = Some _ |- _ => rewrite Hnk in H; destruct (first_key_some _ _ H) as [p' [suf' ->]] end.
-    split; [reflexivity|split; [reflexivity|]]. exists (pre ++ [(k, q)]), p', suf'.
-    split; [rewrite Eo, <- app_assoc; reflexivity|reflexivity].
-  - (* no match: end() *)
-    match goal with H : memZ _ _ = false |- _ => rewrite H end.
-    match goal with H : ptest _ _ _ _ = false |- _ => rewrite H end.
-    match goal with H : next_key _ _ = None |- _ => rewrite Hnk in H; rewrite (first_key_none _ H) end.
-    apply pscan_nil.
-  - (* the iterator is valid *) congruence.
-  - rewrite replay_app, replay_one. cbn [e_op e_arg]. rewrite HLt. reflexivity.
-  - apply legal_app. split; [exact HLg|]. apply legal_one. cbn [e_op e_arg e_ret]. rewrite HLt. reflexivity.
-  - rewrite replay_app, replay_one. cbn [e_op e_arg]. rewrite HLt. reflexivity.
-  - apply legal_app. split; [exact HLg|]. apply legal_one. cbn [e_op e_arg e_ret]. rewrite HLt. reflexivity.
-  - rewrite replay_app, replay_one. cbn [e_op e_arg]. rewrite HLt. reflexivity.
-  - apply legal_app. split; [exact HLg|]. apply legal_one. cbn [e_op e_arg e_ret]. rewrite HLt. reflexivity.
+  all: first
+    [ (* windows: nothing changes *)
+      solve [ exact HLt ]
+    | (* simple method *)
+      solve [ rewrite <- Hc; unfold apply_op; cbn [m_o m_t m_calls];
+              match goal with H : apply_sop _ _ _ _ = _ |- _ => rewrite H end; reflexivity ]
+    | (* begin(): iterator at the first node *)
+      solve [ rewrite <- Hc; cbn [m_o m_t m_calls];
+              match goal with H : first_key _ = Some _ |- _ => destruct (first_key_some _ _ H) as [q [suf E]] end;
+              split; [reflexivity|split; [reflexivity|]]; exists [], q, suf; split; [exact E|]; rewrite E at 3; reflexivity ]
+    | (* empty map *)
+      solve [ rewrite <- Hc; cbn [m_o m_t m_calls];
+              match goal with H : first_key _ = None |- _ => rewrite (first_key_none _ H) end; apply pscan_nil ]
+    | (* the predicate throws *)
+      solve [ match goal with H : memZ _ _ = true |- _ => rewrite H end; reflexivity ]
+    | (* removal of the first match *)
+      solve [ match goal with H : memZ _ _ = false |- _ => rewrite H end;
+              match goal with H : ptest _ _ _ _ = true |- _ => rewrite H end;
+              match goal with H : is_rem _ = true |- _ => destruct (is_rem_true _ H) as [kk ->] end; reflexivity ]
+    | (* first match found *)
+      solve [ match goal with H : memZ _ _ = false |- _ => rewrite H end;
+              match goal with H : ptest _ _ _ _ = true |- _ => rewrite H end;
+              match goal with H : is_rem _ = false |- _ => rewrite (pfound_find _ _ _ _ _ H) end; reflexivity ]
+    | (* no match: ++it *)
+      solve [ match goal with H : memZ _ _ = false |- _ => rewrite H end;
+              match goal with H : ptest _ _ _ _ = false |- _ => rewrite H end;
+              match goal with H : next_key _ _ = Some _ |- _ => rewrite Hnk in H; destruct (first_key_some _ _ H) as [p' [suf' ->]] end;
+              split; [reflexivity|split; [reflexivity|]]; exists (pre ++ [(k, q)]), p', suf';
+              split; [rewrite Eo, <- app_assoc; reflexivity|reflexivity] ]
+    | (* no match: end() *)
+      solve [ match goal with H : memZ _ _ = false |- _ => rewrite H end;
+              match goal with H : ptest _ _ _ _ = false |- _ => rewrite H end;
+              match goal with H : next_key _ _ = None |- _ => rewrite Hnk in H; rewrite (first_key_none _ H) end;
+              apply pscan_nil ]
+    | (* the iterator is valid *)
+      solve [ congruence ]
+    | solve [ rewrite replay_app, replay_one; cbn [e_op e_arg]; rewrite HLt; reflexivity ]
+    | solve [ apply legal_app; split; [exact HLg|]; apply legal_one; cbn [e_op e_arg e_ret]; rewrite HLt; reflexivity ]
+    ].
 Qed.
 
 Lemma Inv_step : forall g ls t c l g' l' es,
@@ -730,6 +743,9 @@ Definition is_fault (e : ev) : bool := ek e =? K_FAULT.
 Lemma fault_evs_flag code ok : existsb is_fault (fault_evs code ok) = negb ok.
 Proof. destruct ok; reflexivity. Qed.
 
+Lemma win_ev_nofault e w : is_fault (win_ev e w) = false.
+Proof. destruct w as [[|] i], e; reflexivity. Qed.
+
 (* a step that logs a Fault event sets the sticky flag (for both orders of removeObject(pred)) *)
 Lemma fault_sets_flag unfixed t c g l g' l' es :
   tstep_gen unfixed t c g l = Some (g', l', es) -> existsb is_fault es = true -> faulted g' = true.
@@ -743,7 +759,7 @@ Proof.
   try discriminate; inversion Hs; subst; clear Hs; cbn [faulted];
   try reflexivity;
   repeat (rewrite ?existsb_app, ?fault_evs_flag in He; cbn [existsb is_fault ek E app] in He);
-  cbn in He; try discriminate;
+  rewrite ?win_ev_nofault in He; cbn in He; try discriminate;
   repeat match goal with b : bool |- _ => destruct b end; cbn in *; try discriminate; try reflexivity;
   rewrite ?orb_true_r; try reflexivity.
   all: repeat match goal with |- context [alive ?h ?p] => destruct (alive h p) end; cbn in *; try discriminate;
@@ -812,15 +828,15 @@ Qed.
 (* the log grows exactly in the step that releases the mutex, and that step is the one that emits
    the operation's return (or the exception that leaves it), with the logged result *)
 Lemma log_step t c g l g' l' es : tstep t c g l = Some (g', l', es) ->
-  (log g' = log g /\ (holds (at_ l) = false \/ exists o k, at_ l = Call o k)) \/
+  (log g' = log g /\ (forall o a r, at_ l <> Unlock o a r) /\ (forall o, at_ l <> XUnlock o)) \/
   (exists o a r, at_ l = Unlock o a r /\ log g' = log g ++ [Entry t o a (Some r)] /\ mtx g' = None /\
                  In (E K_UNLOCK O_MTX 0) es /\ In (E K_RET 0 r) es) \/
   (exists o, at_ l = XUnlock o /\ log g' = log g ++ [Entry t (OP o) null_ptr None] /\ mtx g' = None /\
              In (E K_UNLOCK O_MTX 0) es /\ In (E K_CATCH 0 0) es).
 Proof.
   intros Hs. destruct l as [pr p sl hd].
-  step_cases Hs; cbn [log at_ holds mtx]; auto.
-  all: try (left; split; [reflexivity|right; eauto]; fail).
+  step_cases Hs; cbn [log at_ mtx].
+  all: try (left; split; [reflexivity|split; intros; discriminate]; fail).
   - right; left. do 3 eexists. repeat split; try reflexivity; [left; reflexivity|].
     right. apply in_or_app; right. left; reflexivity.
   - right; left. do 3 eexists. repeat split; try reflexivity; cbn; auto.
@@ -863,6 +879,8 @@ Qed.
 Definition is_throw (e : ev) : bool := ek e =? K_THROW.
 Lemma fault_evs_nothrow code ok : existsb is_throw (fault_evs code ok) = false.
 Proof. destruct ok; reflexivity. Qed.
+Lemma win_ev_nothrow e w : is_throw (win_ev e w) = false.
+Proof. destruct w as [[|] i], e; reflexivity. Qed.
 Lemma throw_step t c g l g' l' es : tstep t c g l = Some (g', l', es) ->
   existsb is_throw es = true ->
   omap g' = omap g /\ tmap g' = tmap g /\ exists o, at_ l' = XUnlock o.
@@ -870,7 +888,7 @@ Proof.
   intros Hs He. destruct l as [pr p sl hd].
   step_cases Hs; cbn [omap tmap at_]; try (split; [reflexivity|split; [reflexivity|eauto]]; fail);
     exfalso; repeat (rewrite ?existsb_app, ?fault_evs_nothrow in He; cbn [existsb is_throw ek E app] in He);
-    cbn in He; discriminate.
+    rewrite ?win_ev_nothrow in He; cbn in He; discriminate.
 Qed.
 Lemma top_level_owns_nothing th progs s u : R th progs s -> holds (pcof (thr s) u) = false -> mtx (gl s) <> Some u.
 Proof. intros HR Hh Hm. rewrite (I_held _ _ (R_inv _ _ _ HR) u Hm) in Hh. discriminate. Qed.
@@ -896,6 +914,7 @@ Proof.
       * destruct (rc_inc (heap (gl s)) (pid p)). eexists; reflexivity.
     + destruct (dst_slot o); [|eexists; reflexivity].
       destruct (dec_opt (heap (gl s)) (slot {| prog := pr; at_ := Unlock o a0 r; slots := sl; held := hd |} b)). eexists; reflexivity.
+    + destruct todo; [|destruct half]; eexists; reflexivity.
     + eexists; reflexivity.
   - rewrite nth_overflow in Hh by (apply nth_error_None; exact Hl). discriminate.
 Qed.
@@ -920,7 +939,7 @@ Proof.
     + destruct (slot {| prog := OL (ReadObj b) :: r; at_ := Idle; slots := sl; held := hd |} b); discriminate.
   - right. split; [left; eauto|]. destruct (mtx (gl s)) as [a|] eqn:Hm.
     + exists a. repeat split; auto. eapply holder_enabled; eauto.
-    + exfalso. destruct (apply_sop o _ _ _) as [[[? ?] ?] ?]. destruct (sop_rc _ _ _ _ _) as [[? ?] ?]. discriminate.
+    + exfalso. destruct (apply_sop o _ _ _) as [[[? ?] ?] ?]. destruct (sop_rc _ _ _ _ _) as [[? ?] ?]. destruct (sop_wins _ _ _ _ _). discriminate.
   - right. split; [right; eauto|]. destruct (mtx (gl s)) as [a|] eqn:Hm.
     + exists a. repeat split; auto. eapply holder_enabled; eauto.
     + discriminate.
@@ -932,6 +951,7 @@ Proof.
     + destruct (rc_inc (heap (gl s)) (pid p)). discriminate.
   - exfalso. destruct (dst_slot o); [|discriminate].
     destruct (dec_opt _ _). discriminate.
+  - exfalso. destruct todo; [|destruct half]; discriminate.
   - discriminate.
 Qed.
 
@@ -1176,16 +1196,26 @@ Lemma R_inv2 th progs s : R th progs s -> Inv2 (total_ins progs) (gl s) (thr s).
 Proof. intros H. eapply reachable_inv; [apply Inv2_step|apply Inv2_init|exact H]. Qed.
 
 Definition cnt_ge (k : Z) (m : omapT) : nat := length (filter (fun kp => k <=? fst kp) m).
+Definition wwin (half : bool) (todo : list wact) : nat :=
+  match todo with [] => 2 | _ => 2 * length todo + (if half then 0 else 1) end%nat.
 Definition wpc (N : nat) (g : glob) (p : pc) : nat :=
   match p with
   | Idle => 0
-  | SLock _ => 2
-  | PLock _ => N + 3
-  | Call _ k => 2 + cnt_ge k (omap g)
+  | SLock _ => 2 * N + 6
+  | PLock _ => N + 5
+  | Call _ k => 4 + cnt_ge k (omap g)
+  | Win _ _ _ half todo => wwin half todo
   | Unlock _ _ _ => 1
   | XUnlock _ => 1
   end%nat.
-Definition wloc (N : nat) (g : glob) (l : loc) : nat := ((N + 4) * length (prog l) + wpc N g (at_ l))%nat.
+Definition wloc (N : nat) (g : glob) (l : loc) : nat := ((2 * N + 7) * length (prog l) + wpc N g (at_ l))%nat.
+Lemma sop_wins_len o r om im f todo im' : sop_wins o r om im f = (todo, im') -> (length todo <= length om + 1)%nat.
+Proof.
+  unfold sop_wins. intros H.
+  destruct o; repeat match type of H with context [match ?x with _ => _ end] => destruct x end;
+    inversion H; subst; cbn [length]; try lia.
+  rewrite map_length. lia.
+Qed.
 Definition mu (N : nat) (s : sysS) : nat := list_sum (map (wloc N (gl s)) (thr s)).
 
 Lemma cnt_ge_le k m : (cnt_ge k m <= length m)%nat.
@@ -1241,18 +1271,24 @@ Proof.
     assert (length (omap (gl s)) <= N)%nat as Hlen by lia.
     pose proof (pcof_at _ _ _ Hl) as Hp.
     destruct l as [pr p sl hd]. unfold wloc. cbn [at_] in Hp.
-    step_cases Hs; cbn [prog at_ length wpc omap]; try lia.
-    + (* begin() *)
-      match goal with |- context [cnt_ge ?k ?m] => pose proof (cnt_ge_le k m) end. lia.
-    + (* ++it *)
-      destruct (call_valid _ _ _ _ _ HI Hp) as [pre [q [suf [Eo [Hlk Hnk]]]]].
-      match goal with H : next_key _ _ = Some ?z |- _ => rewrite Hnk in H; destruct (first_key_some _ _ H) as [p' [suf' ->]] end.
-      rewrite Eo in Hso. destruct (sorted_app_inv _ _ _ _ Hso) as [_ [Hlt _]].
-      match goal with |- context [cnt_ge ?z (omap (gl s))] =>
-        assert (k < z) as Hkz by (apply Hlt; left; reflexivity) end.
-      pose proof (lookup_some_in _ _ _ Hlk) as Hin.
-      match type of Hkz with _ < ?z => pose proof (cnt_ge_lt k z q _ Hkz Hin) end.
-      lia.
+    step_cases Hs; cbn [prog at_ length wpc wwin omap]; try lia.
+    all: first
+      [ (* the windows of a simple method *)
+        solve [ match goal with H : sop_wins _ _ _ _ _ = _ |- _ => pose proof (sop_wins_len _ _ _ _ _ _ _ H) as Q end;
+                cbn [length] in Q; lia ]
+      | (* begin() *)
+        solve [ match goal with |- context [cnt_ge ?k ?m] => pose proof (cnt_ge_le k m) end; lia ]
+      | (* window edges *)
+        solve [ repeat match goal with |- context [match ?x with _ => _ end] => destruct x end; cbn [length]; lia ]
+      | (* ++it *)
+        solve [ destruct (call_valid _ _ _ _ _ HI Hp) as [pre [q [suf [Eo [Hlk Hnk]]]]];
+                match goal with H : next_key _ _ = Some ?z |- _ => rewrite Hnk in H; destruct (first_key_some _ _ H) as [p' [suf' ->]] end;
+                rewrite Eo in Hso; destruct (sorted_app_inv _ _ _ _ Hso) as [_ [Hlt _]];
+                match type of Hlt with context [(?z, _) :: _] =>
+                  assert (k < z) as Hkz by (apply Hlt; left; reflexivity) end;
+                pose proof (lookup_some_in _ _ _ Hlk) as Hin;
+                match type of Hkz with _ < ?z => pose proof (cnt_ge_lt k z q _ Hkz Hin) end;
+                lia ] ].
 Qed.
 
 (* every schedule, from every reachable state, makes at most mu moves: no livelock, no retry loop *)
@@ -1268,3 +1304,33 @@ Qed.
 
 Lemma maps_sorted th progs s : R th progs s -> sorted (omap (gl s)) /\ sorted (tmap (gl s)).
 Proof. intros H. exact (conj (I_so _ _ (R_inv _ _ _ H)) (I_st _ _ (R_inv _ _ _ H))). Qed.
+
+(* ====================================================================== *)
+(* I. windows on the shared_ptr instances of the map nodes                 *)
+(* ====================================================================== *)
+(* the window a thread has open: between the two edges of a copy from / the destruction of a node pointer *)
+Definition open_win (p : pc) : option wact := match p with Win _ _ _ true (w :: _) => Some w | _ => None end.
+Lemma open_win_holds p w : open_win p = Some w -> holds p = true.
+Proof. destruct p; cbn; try discriminate. reflexivity. Qed.
+(* a window is open only while its thread owns mapLock; so at most one window is open at any time: no
+   copy from a node's pointer overlaps its destruction (nor any other access to it) *)
+Lemma open_window_owner th progs s u w : R th progs s -> open_win (pcof (thr s) u) = Some w -> mtx (gl s) = Some u.
+Proof. intros HR H. apply (I_owner _ _ (R_inv _ _ _ HR)). eapply open_win_holds; eauto. Qed.
+Lemma ptr_windows_disjoint th progs s u v w w' : R th progs s ->
+  open_win (pcof (thr s) u) = Some w -> open_win (pcof (thr s) v) = Some w' -> u = v /\ w = w'.
+Proof.
+  intros HR Hu Hv.
+  assert (u = v) as -> by (eapply mutual_exclusion; eauto using open_win_holds).
+  split; [reflexivity|congruence].
+Qed.
+(* window edges are emitted only by the owner, inside its section *)
+Definition is_win_ev (e : ev) : bool :=
+  (ek e =? K_RD_BEGIN) || (ek e =? K_RD_END) || (ek e =? K_WR_BEGIN) || (ek e =? K_WR_END).
+Lemma window_edge_inside t c g l g' l' es : tstep t c g l = Some (g', l', es) ->
+  existsb is_win_ev es = true -> (exists o a r h td, at_ l = Win o a r h td) /\ g' = g.
+Proof.
+  intros Hs He. destruct l as [pr p sl hd].
+  assert (Q : forall code ok, existsb is_win_ev (fault_evs code ok) = false) by (intros code [|]; reflexivity).
+  step_cases Hs; cbn [at_]; try (split; [do 5 eexists; reflexivity|reflexivity]; fail);
+    exfalso; repeat (rewrite ?existsb_app, ?Q in He; cbn [existsb is_win_ev ek E app] in He); cbn in He; discriminate.
+Qed.
